@@ -4,7 +4,7 @@ from symx.run import Case, new_result
 from checks import common, c13
 
 ID = "C20"
-CONDS = ["pair_keys3", "form_signatures3", "pair_keys", "density_keys_fs", "embed_keys", "form_signatures", "table_form_headers", "form_kinds", "added_duplicates", "form_kinds_crowded"]
+CONDS = ["pair_keys3", "form_signatures3", "pair_keys", "density_keys_fs", "embed_keys", "form_signatures", "table_form_headers", "form_kinds", "added_duplicates", "form_kinds_crowded", "added_twice"]
 META = dict(
   functions=["config._config_parser.ConfigParser._init_config_parser (strict INI duplicate detection) / _check_for_duplicate_pairs / _RawConfigParser.optionxform / _ConfigParserDict",
              "config._config_parser._TableFormSection.check_for_duplicate_table_forms/_parse_name", "config._potential_form_registry.Potential_Form_Registry._build_potential_forms/_build_table_forms/"
